@@ -712,6 +712,18 @@ var exoticTags = []string{"menu", "dir", "dl", "dt", "dd", "details", "summary",
 
 // exotic: one of those elements around text, inline content, list items or nested blocks
 func (g *PageGen) exotic(depth int) string {
+	if g.R.Chance(8) {
+		// a MathML element that carries the name of a void HTML element: only there can such an
+		// element have children (the running text inside it is collected; its rendering copy refuses
+		// children, so the words are lost from both views)
+		v := g.R.Pick("area", "wbr", "col", "source", "track", "param")
+		w := g.R.Pick("", "", "wbr", "area")
+		in := g.words(g.R.Range(2, 8))
+		if w != "" {
+			in = "<" + w + ">" + in + "</" + w + ">"
+		}
+		return "<p>" + g.words(g.R.Range(3, 20)) + " <math><" + v + ">" + in + "</" + v + "></math> " + g.words(g.R.Range(0, 6)) + "</p>\n"
+	}
 	t := exoticTags[g.R.Intn(len(exoticTags))]
 	var in string
 	switch g.R.Intn(6) {
